@@ -180,6 +180,98 @@ CHECKS.update({
              "per term, <=3 terms per expression."),
 })
 
+CHECKS.update({
+    "C01": dict(
+        text="Part A: every operator word over {a+, a} x {occupied, virtual, "
+             "general} index names up to length 4 (thorough: up to 3 names "
+             "per space; length 5, 6 over i,j,a,b,p) up to renaming, x every "
+             "placement of normal-ordered groups x every contracted subset "
+             "(carried by a coefficient tensor) x simplify_kronecker_deltas "
+             "x block-exclusion rule sets is passed to the real wicks(); the "
+             "result is compared, for EVERY orbital assignment, with the "
+             "expectation value obtained by applying the operators to the "
+             "reference bit string (N_occ = N_virt = number of index symbols,"
+             " so valid for all orbital spaces). Part B: sandwiches <Phi0|"
+             "G_bra O1 [O2] G_ket|Phi0> of (de)excitation strings up to "
+             "doubles (triples thorough), ip/ea-like strings and operators f,"
+             " V, d(nc,na<=2) with formal matrix elements against operator "
+             "application in Fock space; rule sets (incl. those of the RE "
+             "partitioning) both syntactically (independent block filter) and"
+             " semantically (forbidden blocks zero in the model).",
+        design="4 C01",
+        note="Trusted: vmc/fock.py (bit-string algebra, 150 lines), "
+             "reference interpreter. Bounded: word length, names per space, "
+             "part B model spaces (2,2) (thorough: up to (3,3)). Known "
+             "finding: general index inside NO(...) raises AttributeError."),
+    "C02": dict(
+        text="(mp, re) x (first-order singles off/on) x energy(0..3[4]), "
+             "mp_amplitude / amplitude_residual for every class present at "
+             "orders 1..2[3] and several index strings, expectation_value "
+             "(1- and 2-particle), overlap, norm_factor, expand_norm_factor, "
+             "gen_term_orders: each request in a pristine forked interpreter, "
+             "evaluated in the model spaces (2,2), (3,3) [(3,2),(2,3),(4,4)] "
+             "and compared EXACTLY (formal indeterminates) with Rayleigh-"
+             "Schroedinger PT carried out by explicit operator application in "
+             "determinant space: off-shell step identities (formal lower-order"
+             " amplitudes) which imply the on-shell statement by induction; "
+             "an off-shell mismatch of an MP quantity is only reported after "
+             "the comparison with the explicitly computed MP series (formal "
+             "integrals and orbital energies) fails too.",
+        design="4 C02",
+        note="Trusted: vmc/fock.py, vmc/rspt.py, reference interpreter; "
+             "documented wavefunction ansatz. Bounded: orders and model "
+             "spaces in the evidence; RE residuals are compared up to a "
+             "non-zero rational constant."),
+    "C03": dict(
+        text="variant in {pp, ip, ea, dip, dea} x every ordered pair of the "
+             "two lowest classes x order 0..2 [3 for the lowest block] x "
+             "subtract_gs x {isr_matrix_block, precursor_matrix_block, "
+             "mvp_block_order, transpose partner}: each request in a pristine "
+             "forked interpreter; the value table over ALL bra/ket index "
+             "assignments is compared exactly with the power-series ISR "
+             "construction in determinant space (vmc/isr.py: excitation "
+             "operators on the normalised perturbed ground state built from "
+             "formal amplitudes, Gram-Schmidt against ground state and lower "
+             "classes, S^-1/2 by the binomial matrix series, H applied to "
+             "determinants); mvp against (g_I g_J)^-1/2 sum_J M_IJ Y_J; "
+             "transpose symmetry in the real model; block_order / "
+             "max_ptorder_spaces for every variant and ADC order <= 8 [12].",
+        design="4 C03",
+        note="Trusted: vmc/fock.py, vmc/rspt.py, vmc/isr.py, reference "
+             "interpreter. Bounded: two lowest classes, orders, model spaces "
+             "(2,2)/(3,3) pp, (2,1),(2,2) ip, (1,2),(2,2) ea, (3,1) dip, "
+             "(1,3) dea [one size up]; MP partitioning."),
+    "C04": dict(
+        text="variant in {pp, ip, ea, dip, dea} x (mp | re, singles) x every "
+             "ordered pair of the two lowest classes x order 0..2 [3]: "
+             "overlap_isr evaluated with FORMAL ground-state amplitudes over "
+             "all index assignments must be the antisymmetrised delta at "
+             "order 0 for equal classes and the zero polynomial otherwise; "
+             "overlap_precursor(I,J) = overlap_precursor(J,I) in the real "
+             "model; expand_S_taylor against the Taylor coefficients of "
+             "(1+x)^-1/2; validate_space / _generate_lower_spaces against a "
+             "direct recomputation.",
+        design="4 C04",
+        note="Trusted: reference interpreter, closed-form oracle. Bounded: "
+             "two lowest classes (third class at order <= 1 in the thorough "
+             "tier), orders, model spaces."),
+    "C05": dict(
+        text="Properties for every variant (and mixed left/right pairs) x "
+             "blocks of the two lowest classes x order 0..2 x operator "
+             "strings (expectation values k = 1, 2; transition moments: "
+             "default string and every (nc, na) with nc+na <= 3 [4], incl. a "
+             "string with the wrong particle balance) x subtract_gs x lr_isr: "
+             "expec_block_contribution and trans_moment_space compared "
+             "exactly with X_I <I~|D - D0|J~> Y_J resp. X_I <I~|D|Psi0> over "
+             "the explicit intermediate states of vmc/isr.py with the "
+             "documented 1/sqrt(n_occ! n_virt!) normalisation; "
+             "expectation_value / trans_moment against the sum of the parts "
+             "an independent block/order enumeration prescribes.",
+        design="4 C05",
+        note="Trusted: as C03. Bounded: orders <= 2, two lowest classes, "
+             "model spaces as C03."),
+})
+
 NOT_YET = {}
 
 
